@@ -97,3 +97,18 @@ impl Outcome {
     pub fn is_err(&self) -> bool { matches!(self, Outcome::Err(_)) }
     pub fn returned(&self) -> bool { self.is_ok() || self.is_err() }
 }
+
+/// inverse of `Val::canon` (replay of a recorded finding)
+pub fn parse_canon(c: &str) -> Option<Val> {
+    let fb = |h: &str| -> Option<f64> { if h == "nan" { Some(f64::NAN) } else { u64::from_str_radix(h, 16).ok().map(f64::from_bits) } };
+    let (tag, rest) = c.split_once(':')?;
+    match tag {
+        "f64" => Some(Val::F(fb(rest)?)),
+        "i64" => rest.parse().ok().map(Val::I),
+        "dec" => { let (m, s) = rest.split_once("e-")?; Some(Val::D(Decimal::try_from_i128_with_scale(m.parse().ok()?, s.parse().ok()?).ok()?)) }
+        "cpx" => { let (a, b) = rest.split_once(',')?; Some(Val::C(Complex::new(fb(a)?, fb(b)?))) }
+        "Int" => rest.parse().ok().map(|i| Val::N(Number::Integer(i))),
+        "Flt" => Some(Val::N(Number::Float(fb(rest)?))),
+        _ => None,
+    }
+}
